@@ -188,7 +188,9 @@ var ProfileC09 = &Profile{
 	MultiMsg: true,
 	ID:       "C09", Name: "perpetual", MinBlocks: 5, MaxBlocks: 40, MaxTxs: 5, Spec: specDefault, Check: combine(CheckC09),
 	Weights: map[string]int{"perpetual.open": 18, "perpetual.close": 10, "perpetual.close_positions": 6, "perpetual.update_stop_loss": 3, "perpetual.update_take_profit": 3,
-		"oracle.feed_price": 10, "amm.swap_in": 5, "amm.swap_out": 3, "amm.join": 3, "amm.exit": 3, "stablestake.bond": 1},
+		"oracle.feed_price": 10, "amm.swap_in": 5, "amm.swap_out": 3, "amm.join": 3, "amm.exit": 3, "stablestake.bond": 1,
+		// positions also come into being and end through tradeshield's limit orders, executed by a third party
+		"tradeshield.create_perp_open": 5, "tradeshield.create_perp_close": 2, "tradeshield.update_perp": 1, "tradeshield.execute": 6},
 	Rule: "history in which long and short MTPs coexisted across >=1 block with a time gap >=1h (interest/funding settlement) and >=1 partial close succeeded",
 	NonTrivial: func(h *History) bool {
 		return h.Labels["perp-both-sides-accrual"] > 0 && h.Labels["perp-partial-close"] > 0
@@ -263,7 +265,7 @@ func c12ExtraOps(h *History, g *G) []*Op {
 var ProfileC12 = &Profile{
 	MultiMsg: true,
 	ID:       "C12", Name: "commitments", MinBlocks: 5, MaxBlocks: 40, MaxTxs: 5, Spec: specLending, Check: CheckC12, ExtraOps: c12ExtraOps,
-	Weights: map[string]int{"amm.join": 12, "amm.exit": 12, "stablestake.bond": 6, "stablestake.unbond": 5, "leveragelp.open": 6, "leveragelp.close": 5, "leveragelp.close_positions": 2,
+	Weights: map[string]int{"amm.join": 12, "amm.exit": 12, "stablestake.bond": 6, "stablestake.unbond": 5, "leveragelp.open": 6, "leveragelp.close": 5, "leveragelp.close_positions": 5,
 		"masterchef.claim": 10, "commitment.commit_claimed": 8, "commitment.uncommit": 8, "commitment.stake": 5, "commitment.unstake": 4, "estaking.withdraw_rewards": 2, "commitment.vest_liquid": 3, "commitment.vest": 5, "commitment.cancel_vest": 3, "commitment.claim_vesting": 3, "commitment.vest_now": 1,
 		"oracle.feed_price": 4, "amm.swap_in": 6},
 	Gaps: []time.Duration{time.Second, 5 * time.Second, 6 * time.Second, 10 * time.Minute, 59 * time.Minute, time.Hour + time.Second, 24*time.Hour + time.Second},
